@@ -1,8 +1,9 @@
-(** Round 3: when does the schema-scoped [Planner.plan] reject a single-schema evolution?
-    Exactly when the replayed and the desired schema objects carry different names, a table is
-    dropped (the DropTable carries the replayed table, which points to the un-renamed replayed
-    schema object) and a table is added or modified (it points to the desired one).  With the
-    replayed schema object itself renamed ([deep]) it never does. *)
+(** Round 3: the schema-scoped [Planner.plan] never rejects a single-schema evolution (code with
+    fix C16-planner-replay-rename: the replayed schema object itself is renamed).  Kept for the
+    record: the code before the fix ([Planner_plan_before_fix]: a shallow copy was renamed) did,
+    exactly when the replayed and the desired schema objects carried different names, a table
+    was dropped (the DropTable carries the replayed table, which pointed to the un-renamed
+    replayed schema object) and a table was added or modified. *)
 From Coq Require Import List NArith Bool Lia.
 From Atlas Require Import Base.Bytes Qual.Builder Qual.BuilderProofs Qual.Scope Qual.ScopeProofs Qual.Replay.
 Import ListNotations.
@@ -102,15 +103,48 @@ Qed.
 Section Planner.
   Variable modified : rtab -> rtab -> bool.
 
-  (** the code as it is: rejected iff names differ, something is dropped, something is
-      added or modified *)
-  Theorem planner_rejects_iff q mode dev user objs cur des :
+  (** the code: never rejected *)
+  Theorem planner_never_rejects q mode dev user objs cur des :
+    user <> [] ->
+    forall r, Planner_plan modified (Some q) mode dev user objs cur des <> PRejected r.
+  Proof.
+    intros Hu r. unfold Planner_plan, plan_from.
+    pose proof (schema_diff_shape modified user user objs cur des) as S.
+    pose proof (replay_scope_iff user user _ (Some q) mode S Hu Hu) as K.
+    destruct (schema_diff modified user user objs cur des) as [|c cs'] eqn:E; [discriminate|].
+    rewrite <- E in *. destruct K as [_ K]. rewrite K by (left; reflexivity). discriminate.
+  Qed.
+
+  (** exactly: no plan when the diff is empty, a plan otherwise -- independent of the name the
+      dev database's schema carries *)
+  Theorem planner_plans_iff q mode dev user objs cur des :
+    user <> [] ->
+    Planner_plan modified (Some q) mode dev user objs cur des =
+      match schema_diff modified user user objs cur des with [] => PNoPlan | _ => PPlanned end.
+  Proof.
+    intros Hu. unfold Planner_plan, plan_from.
+    pose proof (schema_diff_shape modified user user objs cur des) as S.
+    pose proof (replay_scope_iff user user _ (Some q) mode S Hu Hu) as K.
+    destruct (schema_diff modified user user objs cur des) as [|c cs'] eqn:E; [reflexivity|].
+    rewrite <- E in *. destruct K as [_ K]. rewrite K by (left; reflexivity). reflexivity.
+  Qed.
+
+  Theorem planner_dev_name_irrelevant q mode dev dev' user objs cur des :
+    Planner_plan modified q mode dev user objs cur des = Planner_plan modified q mode dev' user objs cur des.
+  Proof. reflexivity. Qed.
+
+  (** the code BEFORE fix C16-planner-replay-rename *)
+  Definition Planner_plan_before_fix (q : option bytes) (mode : N) (dev user : bytes)
+             (objs : list bytes) (cur des : list rtab) : plan_res :=
+    plan_from modified dev q mode user objs cur des.
+
+  Theorem before_fix_rejects_iff q mode dev user objs cur des :
     dev <> [] -> user <> [] ->
     let cs := schema_diff modified dev user objs cur des in
-    ((exists r, Planner_plan modified false (Some q) mode dev user objs cur des = PRejected r) <->
+    ((exists r, Planner_plan_before_fix (Some q) mode dev user objs cur des = PRejected r) <->
      (dev <> user /\ existsb is_drop cs = true /\ existsb is_addmod cs = true)).
   Proof.
-    intros Hd Hu cs. unfold Planner_plan. fold cs.
+    intros Hd Hu cs. unfold Planner_plan_before_fix, plan_from. fold cs.
     pose proof (schema_diff_shape modified dev user objs cur des) as S. fold cs in S.
     pose proof (replay_scope_iff dev user cs (Some q) mode S Hd Hu) as K.
     destruct cs as [|c cs'] eqn:E.
@@ -145,18 +179,6 @@ Section Planner.
         destruct (existsb is_addmod cs) eqn:A; [|exfalso; assert (X : SPanic = SOk) by (apply K; tauto); discriminate].
         tauto.
   Qed.
-
-  (** the repaired code never rejects *)
-  Theorem planner_deep_never_rejects q mode dev user objs cur des :
-    user <> [] ->
-    forall r, Planner_plan modified true (Some q) mode dev user objs cur des <> PRejected r.
-  Proof.
-    intros Hu r. unfold Planner_plan.
-    pose proof (schema_diff_shape modified user user objs cur des) as S.
-    pose proof (replay_scope_iff user user _ (Some q) mode S Hu Hu) as K.
-    destruct (schema_diff modified user user objs cur des) as [|c cs'] eqn:E; [discriminate|].
-    rewrite <- E in *. destruct K as [_ K]. rewrite K by (left; reflexivity). discriminate.
-  Qed.
 End Planner.
 
 (** * The witness: history [CREATE t1; CREATE t2], next state {t2, t3} *)
@@ -167,7 +189,7 @@ Definition t2 := mkRT [116; 50] false.
 Definition t3 := mkRT [116; 51] false.
 Definition never (_ _ : rtab) := false.
 Lemma replay_witness :
-  Planner_plan never false (Some []) 0 n_dev n_app [] [t1; t2] [t2; t3] = PRejected (EMulti 2) /\
-  Planner_plan never true (Some []) 0 n_dev n_app [] [t1; t2] [t2; t3] = PPlanned /\
-  Planner_plan never false (Some []) 0 n_app n_app [] [t1; t2] [t2; t3] = PPlanned.
+  Planner_plan never (Some []) 0 n_dev n_app [] [t1; t2] [t2; t3] = PPlanned /\
+  Planner_plan_before_fix never (Some []) 0 n_dev n_app [] [t1; t2] [t2; t3] = PRejected (EMulti 2) /\
+  Planner_plan_before_fix never (Some []) 0 n_app n_app [] [t1; t2] [t2; t3] = PPlanned.
 Proof. repeat split; vm_compute; reflexivity. Qed.
